@@ -55,6 +55,7 @@ conf() {
     C07) PKG=c07;;
     C08) PKG=c08;;
     C11) PKG=c11;;
+    C12) PKG=c12; RACE=1; QLIM=1500;;
     C13) PKG=c13;;
     C14) PKG=c14;;
     *) return 1;;
@@ -62,7 +63,7 @@ conf() {
   QT="${QT}"; return 0
 }
 
-ALL_IDS="C01 C02 C03 C04 C05 C06 C07 C08 C11 C13 C14"
+ALL_IDS="C01 C02 C03 C04 C05 C06 C07 C08 C11 C12 C13 C14"
 
 build_one() { # id -> builds $BIN
   conf "$1" || { echo "check.sh: unknown property $1" >&2; return 2; }
